@@ -30,6 +30,10 @@
 (*            the cancelled body of j waits for (e.g. a lock that sibling  *)
 (*            holds): _tidy_tasks cancels every pending task before it     *)
 (*            awaits any of them, and such jobs rely on it                 *)
+(*   xshut    the caller issues shutdown() once the top-level run is over, *)
+(*            also when it has cancelled that run (which then ended without*)
+(*            any shutdown phase): the explicit shutdown is then the real  *)
+(*            thing, with the same protocol as at the end of a run         *)
 (*   preshut  shutdown() was called on the whole tree before the run: every*)
 (*            job has had its co_shutdown(), every scheduler remembers it  *)
 (*   pure     the top is a PureScheduler (never raises)                    *)
@@ -58,7 +62,7 @@ CfgOf(J) ==
     crit |-> J.crit, forever |-> J.forever, win |-> J.win, tmo |-> J.tmo,
     stmo |-> J.stmo, dur |-> J.dur, out |-> J.out, sdur |-> J.sdur,
     cdur |-> J.cdur, scdur |-> J.scdur, horizon |-> J.horizon, ucancel |-> J.ucancel,
-    cwait |-> J.cwait, preshut |-> J.preshut ]
+    cwait |-> J.cwait, preshut |-> J.preshut, xshut |-> J.xshut ]
 
 Min(T) == CHOOSE t \in T : \A u \in T : t <= u
 Max(T) == CHOOSE t \in T : \A u \in T : t >= u
@@ -90,6 +94,8 @@ Max(T) == CHOOSE t \in T : \A u \in T : t >= u
 (*   ts, tsc, sdl  handler start / handler cancel time; shutdown deadline  *)
 (*              of a broadcast                                             *)
 (*   ucf        the caller's cancellation of the top-level run has fired   *)
+(*   xs         none | running | done   the explicit shutdown() issued after*)
+(*              the top-level run                                          *)
 (*   nstart[n]  number of body entries;  nshut[n] co_shutdown() received   *)
 (***************************************************************************)
 
@@ -110,6 +116,7 @@ InitS(C) ==
     relayed |-> [n \in Nodes(C) |-> FALSE],
     proc |-> {},
     ucf |-> FALSE,
+    xs |-> "none",
     t0  |-> [n \in Nodes(C) |-> IF n = Root THEN 0 ELSE -1],
     tc  |-> [n \in Nodes(C) |-> -1],
     te  |-> [n \in Nodes(C) |-> IF n = Root /\ Kids(C, Root) = {} THEN 0 ELSE -1],
@@ -287,7 +294,8 @@ RelayF(C, X, c) ==
 
 OwnShut(C, X, s)  == IsSched(C, s) /\ X.st[s] = "running" /\ X.pc[s] = "shut"
 AsMember(C, X, s) == IsSched(C, s) /\ X.relayed[s] /\ X.sh[s] \in {"running", "creq", "cing"}
-Casting(C, X, s)  == OwnShut(C, X, s) \/ AsMember(C, X, s)
+XCast(C, X, s)    == s = Root /\ X.xs = "running"
+Casting(C, X, s)  == OwnShut(C, X, s) \/ AsMember(C, X, s) \/ XCast(C, X, s)
 Pend(C, X, s)     == {k \in Kids(C, s) : ShPending(X, k)}
 
 (* The tasks created by a broadcast take their first step before the       *)
@@ -309,7 +317,8 @@ ShutJoinG(C, X, s) == /\ Casting(C, X, s) /\ Pend(C, X, s) = {} /\ ~X.creq[s]
                       /\ X.sh[s] # "creq"
 ShutJoinF(C, X, s, k) ==
   LET X1 == [X EXCEPT !.sres[s] = IF X.sres[s] = "none" THEN "true" ELSE X.sres[s]]
-  IN IF AsMember(C, X, s)
+  IN IF XCast(C, X, s) THEN [X1 EXCEPT !.xs = "done"]
+     ELSE IF AsMember(C, X, s)
      THEN [X1 EXCEPT !.sh[s] = IF X.sh[s] = "cing" THEN "cancelled" ELSE "done"]
      ELSE EndRunF(C, X1, s, k)
 
@@ -324,13 +333,24 @@ ShutExpireF(C, X, s) == [CancelHandlers(C, X, Pend(C, X, s)) EXCEPT !.sres[s] = 
 ShutCancelPropG(C, X, c) == IsSched(C, c) /\ X.sh[c] = "creq" /\ KidsRelayed(C, X, c)
 ShutCancelPropF(C, X, c) == [CancelHandlers(C, X, Pend(C, X, c)) EXCEPT !.sh[c] = "cing"]
 
+(* XShut: the explicit shutdown() of the caller, once the top-level run is *)
+(* over: nothing to do when the top scheduler has shut down already (the   *)
+(* run ended by itself) or has no member; a broadcast otherwise (the run   *)
+(* was cancelled by the caller before any shutdown phase)                  *)
+Terminated(C, X) == X.pc[Root] = "over"
+XShutG(C, X) == C.xshut /\ Terminated(C, X) /\ X.xs = "none"
+XShutF(C, X) ==
+  IF X.did[Root] THEN [X EXCEPT !.xs = "done"]
+  ELSE IF Kids(C, Root) = {} THEN [X EXCEPT !.xs = "done", !.did[Root] = TRUE, !.sres[Root] = "true"]
+  ELSE Broadcast(C, [X EXCEPT !.xs = "running", !.sres[Root] = "none"], Root)
+
 -----------------------------------------------------------------------------
 (* Maximal progress: time passes only when no instant action is enabled    *)
 AnyInstant(C, X) ==
   \/ \E j \in Nodes(C) : \/ AdmitG(C, X, j) \/ CancelDoneG(C, X, j) \/ HandlerEndG(C, X, j)
                          \/ HandlerCancelDoneG(C, X, j)
                          \/ (JobEndG(C, X, j) /\ C.dur[j] >= 0)
-  \/ UserCancelG(C, X)
+  \/ UserCancelG(C, X) \/ XShutG(C, X)
   \/ \E s \in Scheds(C) : \/ (MainG(C, X, s) /\ Unseen(C, X, s) # {})
                           \/ TimeoutG(C, X, s) \/ TidyDoneG(C, X, s) \/ ShutJoinG(C, X, s)
                           \/ ShutExpireG(C, X, s) \/ CancelPropG(C, X, s) \/ RelayG(C, X, s)
@@ -348,10 +368,9 @@ Alarms(C, X) ==
         THEN {X.now + 1} ELSE {})
 
 Future(C, X) == {t \in Alarms(C, X) : t > X.now}
-TickG(C, X)  == ~AnyInstant(C, X) /\ X.pc[Root] # "over" /\ Future(C, X) # {}
+TickG(C, X)  == ~AnyInstant(C, X) /\ (X.pc[Root] # "over" \/ X.xs = "running") /\ Future(C, X) # {}
 TickF(C, X)  == [X EXCEPT !.now = Min(Future(C, X))]
 
-Terminated(C, X) == X.pc[Root] = "over"
 (* a state from which nothing can happen although the top run is not over  *)
 Stuck(C, X) == ~Terminated(C, X) /\ ~AnyInstant(C, X) /\ Future(C, X) = {}
                /\ ~(\E j \in Jobs(C) : X.st[j] = "running" /\ C.dur[j] = -2)
@@ -380,6 +399,7 @@ Acts(C, X) ==
   \cup {Act("ShutExpire", s) : s \in {x \in Scheds(C) : ShutExpireG(C, X, x)}}
   \cup {Act("ShutCancelProp", s) : s \in {x \in Scheds(C) : ShutCancelPropG(C, X, x)}}
   \cup (IF UserCancelG(C, X) THEN {Act("UserCancel", 0)} ELSE {})
+  \cup (IF XShutG(C, X) THEN {Act("XShut", 0)} ELSE {})
   \cup (IF TickG(C, X) THEN {Act("Tick", 0)} ELSE {})
 ActOK(C, a) == a[1] = "JobEnd" => OutOK(C, a[2], a[4])
 Apply(C, X, a) ==
@@ -397,6 +417,7 @@ Apply(C, X, a) ==
     [] a[1] = "ShutExpire" -> ShutExpireF(C, X, a[2])
     [] a[1] = "ShutCancelProp" -> ShutCancelPropF(C, X, a[2])
     [] a[1] = "UserCancel" -> UserCancelF(C, X)
+    [] a[1] = "XShut"      -> XShutF(C, X)
     [] a[1] = "Tick"       -> TickF(C, X)
 
 -----------------------------------------------------------------------------
@@ -418,6 +439,7 @@ ShutExpire(s) == ShutExpireG(cfg, S, s) /\ S' = ShutExpireF(cfg, S, s)
 ShutCancelProp(s) == ShutCancelPropG(cfg, S, s) /\ S' = ShutCancelPropF(cfg, S, s)
 Tick          == TickG(cfg, S) /\ S' = TickF(cfg, S)
 UserCancel    == UserCancelG(cfg, S) /\ S' = UserCancelF(cfg, S)
+XShut         == XShutG(cfg, S) /\ S' = XShutF(cfg, S)
 
 Step ==
   \/ \E j \in Nodes(cfg) : Admit(j) \/ JobEnd(j) \/ CancelDone(j) \/ HandlerEnd(j) \/ HandlerCancelDone(j)
@@ -425,6 +447,7 @@ Step ==
                             \/ Relay(s) \/ ShutJoin(s) \/ ShutExpire(s) \/ ShutCancelProp(s)
   \/ Tick
   \/ UserCancel
+  \/ XShut
 
 Next == UNCHANGED cfg /\ Step
 
